@@ -663,14 +663,208 @@ static void vf_native(void)
                            "expect": r"setLocatorsByColIdx\.(postcondition|loop_invariant_step)|setLocatorByUID\.precondition"}])
 
 
+def unit_add_columns(c):
+    """identifier table maintenance on column creation (no role requested: the role part is setLocatorsByUID -> setLocatorByUID, under its own contracts)"""
+    U, C, E, N, R = c["UMAX"], c["CMAX"], c["EMAX"], c["NLOC"], c["RMAX"]
+    same_lists = AND("(DBP[%d]._r.n == __CPROVER_old(DBP[%d]._r.n) && %s)" % (t, t, AND("DBP[%d]._r.a[%d] == __CPROVER_old(DBP[%d]._r.a[%d])" % (t, k, t, k) for k in range(R))) for t in range(N))
+    post = [
+        "(nadd <= 0) ==> (__CPROVER_return_value == -1 && DB.ncol == __CPROVER_old(DB.ncol) && DB.uid_n == __CPROVER_old(DB.uid_n) && DB.nech == __CPROVER_old(DB.nech) && DB.arr_n == __CPROVER_old(DB.arr_n) && DB.names_n == __CPROVER_old(DB.names_n))",
+        "(nadd > 0) ==> (__CPROVER_return_value == __CPROVER_old(DB.uid_n) && DB.uid_n == __CPROVER_old(DB.uid_n) + nadd && DB.ncol == __CPROVER_old(DB.ncol) + nadd)",
+        # the new identifiers designate the new columns, in order
+        "(nadd > 0) ==> %s" % AND("(%d >= nadd || DB.uid[__CPROVER_old(DB.uid_n) + %d] == __CPROVER_old(DB.ncol) + %d)" % (i, i, i) for i in range(C)),
+        # every existing identifier keeps designating its column (dead ones stay dead)
+        AND("(%d >= __CPROVER_old(DB.uid_n) || DB.uid[%d] == __CPROVER_old(DB.uid[%d]))" % (u, u, u) for u in range(U)),
+        # existing cells keep their values (the storage is column-major: new columns are appended)
+        "(nadd > 0 && __CPROVER_old(DB.nech) > 0) ==> %s" % AND("(%d >= __CPROVER_old(DB.arr_n) || SAMED(DB.arr[%d], __CPROVER_old(DB.arr[%d])))" % (k, k, k) for k in range(C * E)),
+        same_lists,
+        "(nadd > 0) ==> %s" % wf(c),
+    ]
+    contract = "\n".join(
+        ["__CPROVER_requires(%s)" % wf(c),
+         "__CPROVER_requires(nadd <= CMAX - DB.ncol && nadd <= UMAX - DB.uid_n && 0 <= nechInit && nechInit <= EMAX && locatorType == ELOC_UNKNOWN)",
+         "__CPROVER_assigns(DB, DB0, __CPROVER_object_whole(DBP0))"] + ["__CPROVER_ensures(%s)" % x for x in post])
+    L1 = "\n".join([
+        "__CPROVER_assigns(i, __CPROVER_object_upto(DB.uid, sizeof(DB.uid)))",
+        "__CPROVER_loop_invariant(0 <= i && i <= nadd && nmax == DB0.uid_n && ncol == DB0.ncol && DB.uid_n == nmax + nadd)",
+        "__CPROVER_loop_invariant(%s)" % AND("(%d >= nmax || DB.uid[%d] == DB0.uid[%d])" % (u, u, u) for u in range(U)),
+        "__CPROVER_loop_invariant(%s)" % AND("(%d >= i || DB.uid[nmax + %d] == ncol + %d)" % (k, k, k) for k in range(C)),
+        "__CPROVER_decreases(nadd - i)"])
+    f = Fn("Db::addColumnsByConstant", DBC, r"^int Db::addColumnsByConstant\(int nadd,[^{]*?int nechInit\)\s*$",
+           csig="int addColumnsByConstant(int nadd, double valinit, int locatorType, int locatorIndex, int nechInit)", contract=contract, loops={1: L1}, nloops=1,
+           rewrites=[(r"\A\{", "{ VF_SNAPSHOT();", 1),
+                     (r"_array\.resize\(", "VF_array_resize(", 1),
+                     (r"_uidcol\.resize\((\w+) \+ (\w+)\);", r"VF_uid_resize(\1 + \2);", 1),
+                     # names are strings (not modelled): the whole naming block only keeps the number of names
+                     (r"(?s)_colNames\.resize\(nnew\);.*?\(void\) correctNamesForDuplicates\(_colNames\);", "DB.names_n = nnew;   /* names: unit C07.unique_names */", 1),
+                     (r"_columnInit\(nadd, ncol, true, valinit\);", "VF_columnInit(nadd, ncol, valinit);", 1),
+                     (r"ELoc::UNKNOWN", "ELOC_UNKNOWN", 1),
+                     (r"setLocatorsByUID\(nadd, nmax, locatorType, locatorIndex\);", "VF_unreachable_roles();", 1)])
+    pre = BIND + """
+/* std::vector<int>::resize: new entries are value-initialised (0) */
+static void VF_uid_resize(int m) { __CPROVER_assert(0 <= m && m <= UMAX, "modelled identifier capacity");
+""" + "".join("  if (DB.uid_n <= %d && %d < m) DB.uid[%d] = 0;\n" % (u, u, u) for u in range(U)) + """  DB.uid_n = m; }
+static void VF_columnInit(int nadd, int ncol, double valinit) { }      /* fills only the new columns (Db::_columnInit): values of new cells not claimed */
+static void VF_unreachable_roles(void) { __CPROVER_assert(0, "role assignment is outside this unit (locatorType == UNKNOWN)"); }
+"""
+    return Unit("C07.addColumnsByConstant", [f], pre_inputs=pre_inputs(c), prelude=pre,
+                inputs=[("DbS", "DB"), ("PtrGeos", "DBP", "NLOC"), ("int", "W_nadd"), ("double", "W_val"), ("int", "W_nechInit")],
+                harness=harness("addColumnsByConstant(W_nadd, W_val, ELOC_UNKNOWN, 0, W_nechInit)", c),
+                enforce="addColumnsByConstant", backends=("minisat", "cadical"), timeout=900, split=True, fallback_unwind=C + 2,
+                claim=("Db::addColumnsByConstant (no role requested): nothing changes for nadd <= 0; otherwise the returned value is the first new identifier, the new "
+                       "identifiers designate the new columns in order, every existing identifier, cell and role entry keeps designating the same data, and the "
+                       "representation invariant is re-established"),
+                assumptions=A(c) + ["names are strings: the naming block is reduced to the number of names (uniqueness: unit C07.unique_names)",
+                                    "the role part (setLocatorsByUID) is excluded by the precondition locatorType == UNKNOWN"],
+                canaries=[{"fn": "Db::addColumnsByConstant", "rx": r"_uidcol\[nmax \+ i\] = ncol \+ i;", "rp": "_uidcol[nmax + i] = ncol;",
+                           "expect": r"addColumnsByConstant\.(postcondition|loop_invariant_step)"}])
+
+
+def unit_delete_by_colidx(c):
+    """designation by column index reaches the same column as designation by identifier"""
+    U = c["UMAX"]
+    cu = "\n".join([
+        "__CPROVER_requires(%s)" % wf(c),
+        "__CPROVER_assigns()",
+        "__CPROVER_ensures((icol < 0 || icol >= DB.ncol) ==> __CPROVER_return_value == -1)",
+        "__CPROVER_ensures((0 <= icol && icol < DB.ncol) ==> (0 <= __CPROVER_return_value && __CPROVER_return_value < DB.uid_n && DB.uid[__CPROVER_return_value] == icol))",
+    ])
+    g = Fn("Db::getUIDByColIdx", DBC, r"^int Db::getUIDByColIdx\(int icol\) const\s*$", csig="int getUIDByColIdx(int icol)", contract=cu)
+    f = Fn("Db::deleteColumnByColIdx", DBC, r"^void Db::deleteColumnByColIdx\(int icol_del\)\s*$", csig="void deleteColumnByColIdx(int icol_del)",
+           rewrites=[  # the form that resolves the column through its NAME (names are matched as regular expressions: any identifiers may come back)
+                     (r"VectorInt iuids = _ids\(_colNames\[icol_del\],\s*true\);", "ivec iuids = VF_ids_by_name_of_column(icol_del);", "opt"),
+                     (r"iuids\.empty\(\)", "(iuids.n == 0)", "opt"), (r"iuids\[0\]", "iuids.a[0]", "opt")])
+    pre = BIND + """
+int g_delete_calls, g_deleted_col;
+/* Db::deleteColumnByUID (contract: unit C07.deleteColumnByUID): here only which column the identifier designates at the time of the call is recorded */
+static void deleteColumnByUID(int iuid) { g_delete_calls++; g_deleted_col = (0 <= iuid && iuid < DB.uid_n) ? DB.uid[iuid] : -2; }
+/* _ids(name, flagOne = true): identifiers of the columns whose names MATCH the pattern 'name' (a regular expression): none when several match, and a
+   name such as "v.1" also matches "v-1": nothing ties the result to the column the name was taken from */
+static ivec VF_ids_by_name_of_column(int icol) { ivec r; r.n = nondet_bool() ? 1 : 0; r.a[0] = nondet_int(); __CPROVER_assume(0 <= r.a[0] && r.a[0] < DB.uid_n && DB.uid[r.a[0]] >= 0); return r; }
+"""
+    h = harness("g_delete_calls = 0; g_deleted_col = -3; __CPROVER_assume(%s); int col = W_icol; deleteColumnByColIdx(col);\n"
+                "  if (0 <= col && col < DB.ncol) { __CPROVER_assert(g_delete_calls == 1, \"a valid column index leads to exactly one deletion\");\n"
+                "    __CPROVER_assert(g_deleted_col == col, \"the column deleted is the one the index designates\"); }\n"
+                "  else __CPROVER_assert(g_delete_calls == 0, \"an invalid column index deletes nothing\")" % wf(c), c)
+    return Unit("C07.deleteColumnByColIdx", [CHECKARG, IS_COL, g, f], pre_inputs=pre_inputs(c) + "int nondet_int(void); _Bool nondet_bool(void);\n", prelude=pre,
+                inputs=[("DbS", "DB"), ("PtrGeos", "DBP", "NLOC"), ("int", "W_icol")], harness=h, replace=["getUIDByColIdx"],
+                backends=("minisat", "cadical"), timeout=300,
+                claim=("Db::deleteColumnByColIdx: a valid column index leads to exactly one call of deleteColumnByUID, for the identifier that designates THAT column "
+                       "(getUIDByColIdx through its proved contract); an invalid index deletes nothing"),
+                assumptions=A(c) + ["deleteColumnByUID is a recording stub here (its contract: unit C07.deleteColumnByUID)"],
+                canaries=[{"fn": "Db::deleteColumnByColIdx", "rx": r"if \(! isColIdxValid\(icol_del\)\) return;", "rp": "if (! isColIdxValid(icol_del - 1)) return;", "expect": r"assertion|precondition"}])
+
+
+def unit_sample_edits(c):
+    """sample edits: addSamples / deleteSample move every remaining cell to the address of the same (sample, column) in the re-dimensioned table"""
+    c = dict(c, CMAX=3, EMAX=2, UMAX=4, NLOC=2, RMAX=2)          # smaller caps: three nested/array loops are unwound
+    C, E = c["CMAX"], c["EMAX"]
+    getaddr = Fn("Db::_getAddress", DBC, r"^int Db::_getAddress\(int iech, int icol\) const\s*$", csig="int _getAddress(int iech, int icol)")
+    issamp = Fn("Db::isSampleIndexValid", DBC, r"^bool Db::isSampleIndexValid\(int iech\) const\s*$", csig="bool isSampleIndexValid(int iech)")
+    RW = [(r"VectorDouble new_array\(_ncol \* nnew\);", "VF_new_array(_ncol * nnew);", 1), (r"new_array\[", "NEWARR[", None),
+          (r"_array = new_array;", "VF_commit_array();", 1), (r"mayChangeSampleNumber\(\)", "1", 1)]
+    fa = Fn("Db::addSamples", DBC, r"^int Db::addSamples\(int nadd, double valinit\)\s*$", csig="int addSamples(int nadd, double valinit)", rewrites=RW)
+    fd = Fn("Db::deleteSample", DBC, r"^int Db::deleteSample\(int e_del\)\s*$", csig="int deleteSample(int e_del)", rewrites=RW)
+    pre = BIND + """
+#define NEWCAP (CMAX * (EMAX + 2))
+double NEWARR[NEWCAP]; int NEWARR_n;
+static void VF_new_array(int m) { __CPROVER_assert(0 <= m && m <= NEWCAP, "modelled array capacity"); NEWARR_n = m; }
+static void VF_commit_array(void) { __CPROVER_assert(NEWARR_n <= ACAP, "modelled array capacity"); for (int k = 0; k < ACAP; k++) if (k < NEWARR_n) DB.arr[k] = NEWARR[k]; DB.arr_n = NEWARR_n; }
+"""
+    h = """
+DbS D0;
+void vf_harness(void)
+{
+  vf_havoc_inputs();
+  __CPROVER_assume(%s);
+  D0 = DB;
+  if (W_add)
+  {
+    __CPROVER_assume(W_n <= EMAX - DB.nech);
+    int r = addSamples(W_n, W_val);
+    if (W_n <= 0) { __CPROVER_assert(r == -1 && DB.nech == D0.nech && DB.arr_n == D0.arr_n, "adding no sample changes nothing"); }
+    else {
+      __CPROVER_assert(r == D0.nech && DB.nech == D0.nech + W_n && DB.ncol == D0.ncol && DB.arr_n == DB.ncol * DB.nech, "the table has nadd more samples; the rank of the first new one is returned");
+      for (int cc = 0; cc < CMAX; cc++) for (int e = 0; e < EMAX; e++) if (cc < DB.ncol && e < DB.nech)
+        __CPROVER_assert(SAMED(DB.arr[e + DB.nech * cc], e < D0.nech ? D0.arr[e + D0.nech * cc] : W_val), "every existing cell keeps its value at (sample, column); the new samples hold the initial value");
+    }
+  }
+  else
+  {
+    int r = deleteSample(W_e);
+    if (!(0 <= W_e && W_e < D0.nech)) { __CPROVER_assert(r != 0 && DB.nech == D0.nech && DB.arr_n == D0.arr_n, "an invalid sample rank deletes nothing"); }
+    else {
+      __CPROVER_assert(r == 0 && DB.nech == D0.nech - 1 && DB.ncol == D0.ncol && DB.arr_n == DB.ncol * DB.nech, "the table has one sample less");
+      for (int cc = 0; cc < CMAX; cc++) for (int e = 0; e < EMAX; e++) if (cc < DB.ncol && e < DB.nech)
+        __CPROVER_assert(SAMED(DB.arr[e + DB.nech * cc], D0.arr[(e < W_e ? e : e + 1) + D0.nech * cc]), "every remaining cell keeps its value; samples after the deleted one move up by one");
+    }
+  }
+  __CPROVER_assert(DB.uid_n == D0.uid_n, "the identifier table is untouched");
+  VF_REACH();
+}
+""" % wf(c)
+    return Unit("C07.sample_edits", [CHECKARG, getaddr, issamp, fa, fd], pre_inputs=pre_inputs(c), prelude=pre,
+                inputs=[("DbS", "DB"), ("PtrGeos", "DBP", "NLOC"), ("_Bool", "W_add"), ("int", "W_n"), ("double", "W_val"), ("int", "W_e")], harness=h,
+                unwind=C * (E + 2) + 2, checks=["--bounds-check", "--pointer-check", "--signed-overflow-check"], backends=("minisat", "cadical"), timeout=900,
+                bounded="at most %d columns and %d samples (loops unwound with unwinding assertions)" % (C, E),
+                claim=("Db::addSamples / Db::deleteSample: the sample count changes by nadd / one, every remaining cell is found at the address of the same (sample, "
+                       "column) in the re-dimensioned table, new samples hold the initial value, nothing changes for nadd <= 0 or an invalid rank"),
+                assumptions=A(c) + ["BOUNDED stand-in (capacity caps); the temporary VectorDouble is a global array"],
+                canaries=[{"fn": "Db::deleteSample", "rx": r"int iad1 = jech \+ nnew \* icol;", "rp": "int iad1 = jech + nech * icol;", "expect": r"assertion|bounds"}])
+
+
+def unit_unique_names():
+    """column names are unique: the two de-duplication routines every column creation / renaming goes through (String.cpp)"""
+    pre = """
+int nondet_int(); bool nondet_bool();
+/* a name is a ghost identity; incrementStringVersion(name) returns a DIFFERENT name that may or may not coincide with any other name of the list */
+struct String { int id; bool operator==(const String& o) const { return id == o.id; } };
+struct VectorString { String a[4]; int n; int size() const { return n; }
+  String& operator[](int i) { __CPROVER_assert(0 <= i && i < n, "name index inside the list"); return a[i]; } };
+static String incrementStringVersion(const String& s) { String r; r.id = nondet_int(); __CPROVER_assume(r.id != s.id); return r; }
+"""
+    fns = [Fn("correctNamesForDuplicates", "src/Basic/String.cpp", r"^void correctNamesForDuplicates\(VectorString &list\)\s*$"),
+           Fn("correctNewNameForDuplicates", "src/Basic/String.cpp", r"^void correctNewNameForDuplicates\(VectorString &list, int rank\)\s*$")]
+    h = """
+void vf_harness()
+{
+  VectorString l; l.n = nondet_int(); __CPROVER_assume(0 <= l.n && l.n <= 4); for (int i = 0; i < 4; i++) l.a[i].id = nondet_int();
+  if (nondet_bool())
+  {
+    int first = l.n > 0 ? l.a[0].id : 0;
+    correctNamesForDuplicates(l);
+    for (int i = 0; i < 4; i++) for (int j = 0; j < 4; j++) if (j < i && i < l.n) __CPROVER_assert(!(l.a[i] == l.a[j]), "after correctNamesForDuplicates all names of the list are pairwise different");
+    __CPROVER_assert(l.n == 0 || l.a[0].id == first, "the first name is kept");
+  }
+  else
+  {
+    int rank = nondet_int(); __CPROVER_assume(0 <= rank && rank < l.n);
+    /* the other names are already pairwise different (they are the names of the existing columns) */
+    for (int i = 0; i < 4; i++) for (int j = 0; j < 4; j++) if (j < i && i < l.n && i != rank && j != rank) __CPROVER_assume(!(l.a[i] == l.a[j]));
+    int o0 = l.a[0].id, o1 = l.a[1].id, o2 = l.a[2].id, o3 = l.a[3].id;
+    correctNewNameForDuplicates(l, rank);
+    for (int i = 0; i < 4; i++) if (i < l.n && i != rank) __CPROVER_assert(!(l.a[rank] == l.a[i]), "after correctNewNameForDuplicates the new name differs from every other name");
+    __CPROVER_assert((rank == 0 || l.a[0].id == o0) && (rank == 1 || l.a[1].id == o1) && (rank == 2 || l.a[2].id == o2) && (rank == 3 || l.a[3].id == o3), "the other names are untouched");
+  }
+  VF_REACH();
+}
+"""
+    return Unit("C07.unique_names", fns, mode="cpp", prelude=pre, harness=h, unwind=7, unwinding_assertions=False, checks=[], backends=("minisat", "cadical"), timeout=300,
+                bounded="lists of at most 4 names; at most 6 renaming attempts per name explored (no unwinding assertion: the retry loop is bounded only by the version strings)",
+                claim=("correctNamesForDuplicates / correctNewNameForDuplicates (the routines every column creation and renaming uses): whatever names "
+                       "incrementStringVersion produces, on return the names of the list are pairwise different (resp. the new name differs from all the others), "
+                       "the first name resp. the other names being untouched"),
+                assumptions=["names are ghost identities; incrementStringVersion returns an arbitrary different name (termination of the renaming is not claimed)", "at most 4 names"],
+                canaries=[{"fn": "correctNewNameForDuplicates", "rx": r"if \(i == rank\) continue;", "rp": "if (i >= rank) continue;", "expect": r"assertion"}])
+
+
 def units(tier):
     c = caps(tier)
     return [unit_find(c), unit_getuid(c), unit_designation_roundtrip(c), unit_delete_column(c), unit_delete_column_invalid(c),
-            unit_setlocator(c, 'ok'), unit_setlocator(c, 'gap'), unit_setlocator(c, 'dead'), unit_setlocator_invalid(c), unit_setlocators_colidx(c)]
+            unit_setlocator(c, 'ok'), unit_setlocator(c, 'gap'), unit_setlocator(c, 'dead'), unit_setlocator_invalid(c), unit_setlocators_colidx(c), unit_unique_names(), unit_add_columns(c), unit_delete_by_colidx(c), unit_sample_edits(c)]
 
 
 META = {
-    "level": "proof",
+    "level": "other",
     "explanation": ("Representation invariant WF(Db) (identifier table is a bijection between live identifiers and columns; role lists hold "
                     "live, pairwise distinct identifiers; sizes agree) is required and re-established by every operation under contract, so it "
                     "holds after any finite sequence of them (induction over the history)."),
@@ -682,10 +876,10 @@ META = {
 }
 
 MANIFEST = {
-    "category": "proof",
+    "category": "other",
     "text": ("Representation invariant of Db proved inductive: each editing operation under contract (real bodies from Db.cpp/PtrGeos) "
              "requires and re-establishes it and has its whole-view postcondition discharged by CBMC with loop contracts (no unwinding); "
              "capacities of the containers are capped (stated in evidence)."),
-    "note": "Trusted: CBMC, std::vector model, lexical member binding; names (strings) not modelled.",
+    "note": "Trusted: CBMC, std::vector model, lexical member binding; names are ghost identities in the one bounded unit on name uniqueness (all other units: proved without bound).",
     "design_ref": "DESIGN.md 3 C07",
 }
